@@ -60,3 +60,15 @@ PROPS["C18"] = dict(
 )
 
 NOT_APPLICABLE_REASON = {}
+
+PROPS["C14"] = dict(
+    contracts=["util_url"],
+    bounded=["c14"],
+    level="other",
+    trusted_base=COMMON_TRUSTED,
+    assumptions=["reference RFC 3986 reading used by the bounded contract: authority ends at the first / ? # or backslash, host follows the last '@', port follows the last ':' outside brackets"],
+    not_decided=[],
+    explanation="bounded stand-in only so far (deductive totality / encoder obligations follow)",
+    level_text="bounded",
+    level_note="bounded",
+)
